@@ -73,7 +73,7 @@ Section Duplex.
     forall s, protected hc -> hc_seq hc = be64 s -> (s + N.of_nat (length recs) < 2 ^ 64)%N ->
     protected hc' /\ hc_seq hc' = be64 (s + N.of_nat (length recs)).
   Proof.
-    induction 1 as [hc|hc hc1 hc2 eiv fr rec_ recs frs He Heb Hfr Henc Hch IH]; intros s Hp Hs Hb.
+    induction 1 as [hc|hc hc1 hc2 eiv fr rec_ recs frs He Heb Hnon Hfr Henc Hch IH]; intros s Hp Hs Hb.
     - cbn [length]. rewrite N.add_0_r. auto.
     - cbn [length] in Hb |- *.
       destruct (encrypt_fields P _ _ _ _ _ Henc) as [_ [_ [Hmac [Hk Hl]]]].
@@ -102,7 +102,7 @@ Section Duplex.
     { rewrite Hm. cbn [data length]. destruct (Nat.ltb_spec maxPlaintext 2); [unfold maxPlaintext in *; lia|reflexivity]. }
     subst m.
     destruct (writeRecord_step_chain P Hok Hexp _ _ _ _ _ _ Hs Hstep) as [_ [_ [Hch _]]].
-    inversion Hch as [|? hc1 ? eiv fr ? ? ? Hel Heb Hfr Henc Hnil]; subst. inversion Hnil; subst.
+    inversion Hch as [|? hc1 ? eiv fr ? ? ? Hel Heb Hnon Hfr Henc Hnil]; subst. inversion Hnil; subst.
     exists c1, r, eiv.
     cbn [writeRecordLocked]. fold data. rewrite Hstep. cbn [obind skipn data writeRecordLocked].
     split; [reflexivity|]. split; [exact Hel|]. split; [exact Heb|]. exact Henc.
